@@ -166,6 +166,8 @@ def run_driver(opt, obj, clock, calls, steps_api=False):
                 else:
                     opt.search(obj, n_iter=c["n_iter"], **kw)
             except Exception as e:     # noqa
+                if type(e).__name__ == 'Hang':
+                    raise
                 import traceback
                 return obs, (type(e).__name__, str(e)[:200], traceback.format_exc()[-1500:])
             obs.append(observe_opt(opt, obj, clock, names))
